@@ -24,6 +24,8 @@ EXPLANATION += ' DRV-FPENV also on the fenv build (K1); feupdateenv is not a res
 EXPLANATION += ' A64-CFR-BITS, RV-CFR-BITS.'
 CLAIM += (' On the A64 and RV64 back-ends CFROUND writes a control word that depends on two bits of the source register only and maps them as Table 4.3.1 prescribes (A64-CFR-BITS, RV-CFR-BITS).')
 
+EXPLANATION += ' RACE-GLOBALS-AST.'
+
 
 def run(ctx, R):
     F = astq.Facts(ctx, 'K0')
